@@ -172,22 +172,45 @@ def dense_state(psi):
 
 # ---------------------------------------------------------------- infinite chains with closed-form energy density
 
-INF_TERMS = {  # uniform nearest-neighbour chains: (site kinds by conserve, terms as in _terms but with scalar coefficients)
+INF_TERMS = {  # uniform nearest-neighbour chains: terms as in _terms but with scalar coefficients
     'tfi': [('coupling', -1.0, 'Sigmax', 'Sigmax', 1, False), ('onsite', -1.5, 'Sigmaz')],  # J=1, g=1.5 (gapped)
     'xxz': [('coupling', 0.5, 'Sp', 'Sm', 1, True), ('coupling', 2.0, 'Sz', 'Sz', 1, False)],  # Delta=2 (gapped, Neel)
+    # complex couplings.  cxxz: XXZ + Dzyaloshinskii-Moriya term = XXZ with J=|1-0.6i|, Delta=3/J after a twist about z
+    'cxxz': [('coupling', 0.5 - 0.3j, 'Sp', 'Sm', 1, True), ('coupling', 3.0, 'Sz', 'Sz', 1, False)],
+    # cxy: no charge, gapped (field); reference = exact ring of 8 sites (rings of 6, 8, 10 sites agree to 1e-7)
+    'cxy': [('coupling', -1.0, 'Sx', 'Sx', 1, False), ('coupling', -0.5, 'Sy', 'Sy', 1, False), ('coupling', 0.2, 'Sz', 'Sz', 1, False),
+            ('coupling', 0.3j, 'Sm', 'Sp', 1, True), ('onsite', -1.5, 'Sz'), ('onsite', -0.3, 'Sx')],
 }
-INF_SITES = {'tfi': ['spin_par', 'spin_none'], 'xxz': ['spin_Sz', 'spin_none']}
+INF_SITES = {'tfi': ['spin_par', 'spin_none'], 'xxz': ['spin_Sz', 'spin_none'], 'cxxz': ['spin_Sz'], 'cxy': ['spin_none']}
+INF_TOL = {'tfi': (1e-9, 1e-6), 'xxz': (1e-9, 1e-6), 'cxxz': (1e-9, 1e-6), 'cxy': (1e-5, 1e-5)}  # (slack of the lower bound, convergence)
 
 
+def _xxz_density(delta):
+    lam = np.arccosh(delta)
+    n = np.arange(1, 100)
+    return float(delta / 4 - np.sinh(lam) * (0.5 + 2 * np.sum(1.0 / (1.0 + np.exp(2 * n * lam)))))
+
+
+@functools.lru_cache(maxsize=None)
 def exact_density(name):
     """Closed forms: TFI -(1/pi) int_0^pi sqrt(1+g^2-2g cos k) dk; XXZ (Delta=cosh(lam)>1, Bethe ansatz)
-    Delta/4 - sinh(lam) [1/2 + 2 sum_n 1/(1+exp(2 n lam))]."""
+    Delta/4 - sinh(lam) [1/2 + 2 sum_n 1/(1+exp(2 n lam))]; 'cxy': dense periodic ring of 8 sites."""
     if name == 'tfi':
         k = (np.arange(20000) + 0.5) * np.pi / 20000  # midpoint rule, smooth periodic integrand
         return float(-np.mean(np.sqrt(1 + 1.5**2 - 2 * 1.5 * np.cos(k))))
-    lam = np.arccosh(2.0)
-    n = np.arange(1, 200)
-    return float(2.0 / 4 - np.sinh(lam) * (0.5 + 2 * np.sum(1.0 / (1.0 + np.exp(2 * n * lam)))))
+    if name == 'xxz':
+        return _xxz_density(2.0)
+    if name == 'cxxz':
+        J = abs(1 - 0.6j)
+        return J * _xxz_density(3.0 / J)
+    site, N = _site('spin_none'), 8
+    full = lambda n, i: functools.reduce(np.kron, [site.get_op(n).to_ndarray() if j == i else np.eye(2) for j in range(N)])  # noqa: E731
+    H = np.zeros((2**N, 2**N), complex)
+    for t in INF_TERMS[name]:
+        for i in range(N):
+            m = t[1] * (full(t[2], i) if t[0] == 'onsite' else full(t[2], i) @ full(t[3], (i + 1) % N))
+            H += m + (m.conj().T if t[0] == 'coupling' and t[5] else 0)
+    return float(np.linalg.eigvalsh(H)[0] / N)
 
 
 def infinite_model(name, L, ephc, kind):
